@@ -64,7 +64,14 @@ def build(spec):
         o.operands = ops
     for bi, bs in enumerate(spec["blocks"]):
         if bs["succ"] is not None:
-            blocks[bi].add_op(test.TestTermOp.create(successors=[blocks[s % len(blocks)] for s in bs["succ"]]))
+            succs = [blocks[s % len(blocks)] for s in bs["succ"]]
+            if bs.get("unregistered_terminator"):
+                # a terminator of an unregistered dialect (allowed with --allow-unregistered-dialect): its successors are control-flow edges too
+                from xdsl.dialects.builtin import UnregisteredOp
+
+                blocks[bi].add_op(UnregisteredOp.with_name("mycf.br").create(successors=succs))
+            else:
+                blocks[bi].add_op(test.TestTermOp.create(successors=succs))
     top = test.TestOp.create(regions=[Region(blocks)])
     region = top.regions[0]
     # keep the input valid: an op in a reachable block must not use a value defined in an unreachable block
@@ -104,7 +111,7 @@ def gen(rnd):
                           for _ in range(rnd.randrange(0, 3))]
             ops.append((kind, [rnd.randrange(0, 40) for _ in range(rnd.randrange(0, 3))], rnd.randrange(0, 3), nested))
         succ = [rnd.randrange(0, nb) for _ in range(rnd.randrange(0, 3))]
-        blocks.append({"ops": ops, "succ": succ})
+        blocks.append({"ops": ops, "succ": succ, "unregistered_terminator": rnd.random() < 0.25})
     return {"blocks": blocks}
 
 
@@ -128,8 +135,8 @@ def _blocks(r):
 def effects_known_harmless(op):
     """From the statement: not a terminator, not a symbol, no possibly observable effect."""
     n = op.name
-    if n in ("test.termop", "test.op_with_symbol"):
-        return False
+    if n in ("test.termop", "test.op_with_symbol", "builtin.unregistered"):
+        return False  # (an op of an unregistered dialect has unknown effects and may be a terminator)
     if n in ("test.op", "test.op_with_memwrite"):
         return False
     if n in ("test.pureop", "test.op_with_memread"):
@@ -146,7 +153,7 @@ def reachable(region):
     while work:
         b = work.pop()
         last = b._last_op
-        if last is not None and last.name == "test.termop":
+        if last is not None and last.name in ("test.termop", "builtin.unregistered"):
             for s in last._successors:
                 if id(s) not in seen:
                     seen.add(id(s))
